@@ -149,7 +149,7 @@ def _cp_inner_inv(self, contract, declarer, dummy, env, idx):
                 declarer is env.declarer, dummy is env.dummy)
 
 
-def _cp_card_step(self, iter, env, card, dummy, declarer):
+def _cp_card_step(self, iter, env, card, dummy, declarer, hand_open):
     """C11: every iteration applies exactly one play to the replica, by the seat whose turn it is:
     the client's own card (also sent as '<me> plays <card>'), dummy's card when the client is
     declarer (sent as '<dummy> plays <card>'), or the card parsed from the one message received,
@@ -158,7 +158,16 @@ def _cp_card_step(self, iter, env, card, dummy, declarer):
     me = self.player
     i_play = conj(a is me, me is not dummy)
     i_play_dummy = conj(a is dummy, me is declarer)
+    asks_dummy = conj(a is dummy, not iter.hand_open, me is not dummy)
+    n_sent = len(sent(self))
+    ready_for_card = line(G.FORMAL[me] + ' ready for ' + ('dummy' if a is dummy else G.FORMAL[a]) +
+                          "'s card to trick " + str(iter.env.trick_num))
     return conj(step_ok(env, iter.env, card),
+                # dummy's hand is asked for exactly once, by the three other seats, when dummy
+                # first comes on turn; otherwise one message per iteration
+                n_sent == (2 if asks_dummy else 1),
+                implies(asks_dummy, sent(self)[0] == line(G.FORMAL[me] + ' ready for dummy')),
+                implies(not i_play and not i_play_dummy, sent(self)[-1] == ready_for_card),
                 implies(i_play, sent(self)[-1] == line(G.FORMAL[me] + ' plays ' +
                                                        G.RANK_TEXT[card.rank] + PR.SUIT_LETTER[card.suit])),
                 implies(i_play_dummy, sent(self)[-1] == line(G.FORMAL[dummy] + ' plays ' +
